@@ -4,6 +4,10 @@
 package main
 
 import (
+	"strconv"
+	"time"
+	"sync/atomic"
+	"sync"
 	"bufio"
 	"encoding/hex"
 	"flag"
@@ -53,6 +57,37 @@ type Ctx struct {
 	Count  int
 	Kinds  map[string]int // distribution statistics
 	emitHook func(op, obs string) // when set, Emit hands the case to the hook instead of writing it
+	mu       sync.Mutex
+	lastEmit int64  // unix ns of the last progress (atomic)
+	pending  atomic.Value // op line announced by Begin and not emitted yet
+}
+
+// Begin announces the case about to be executed, so that the watchdog can name it if it never returns.
+func (c *Ctx) Begin(op string) {
+	atomic.StoreInt64(&c.lastEmit, time.Now().UnixNano())
+	c.pending.Store(op)
+}
+
+// watchdog: when nothing was emitted for limit, the implementation is wedged (a request that never
+// returns): the case in flight is written with the observation WEDGED and the run ends there.
+func (c *Ctx) watchdog(limit time.Duration, finish func()) {
+	for {
+		time.Sleep(time.Second)
+		last := atomic.LoadInt64(&c.lastEmit)
+		if last == 0 || time.Since(time.Unix(0, last)) < limit {
+			continue
+		}
+		c.mu.Lock()
+		op, _ := c.pending.Load().(string)
+		if op == "" {
+			op = "-"
+		}
+		fmt.Fprintln(c.ops, "wedge.detected pending="+hex.EncodeToString([]byte(op)))
+		fmt.Fprintln(c.impl, "WEDGED")
+		c.Kinds["wedged"]++
+		finish()
+		os.Exit(0)
+	}
 }
 
 // Emit records one case: the op line for the model and what the implementation did.
@@ -64,9 +99,13 @@ func (c *Ctx) Emit(op, obs string) {
 	if strings.ContainsAny(op, "\n\r") || strings.ContainsAny(obs, "\n\r") {
 		panic("newline in line protocol")
 	}
+	c.mu.Lock()
 	fmt.Fprintln(c.ops, op)
 	fmt.Fprintln(c.impl, obs)
 	c.Count++
+	c.mu.Unlock()
+	atomic.StoreInt64(&c.lastEmit, time.Now().UnixNano())
+	c.pending.Store("")
 }
 func (c *Ctx) Kind(k string) { c.Kinds[k]++ }
 
@@ -158,6 +197,28 @@ func main() {
 	}
 	c := &Ctx{R: &Rng{s: *seed*0x9e3779b97f4a7c15 + 0x1234567}, N: *n, Tier: *tier, Corpus: *corpus,
 		ops: bufio.NewWriterSize(of, 1<<20), impl: bufio.NewWriterSize(inf, 1<<20), Kinds: map[string]int{}}
+	finish := func() {
+		c.ops.Flush()
+		c.impl.Flush()
+		of.Close()
+		inf.Close()
+		var ks []string
+		for k := range c.Kinds {
+			ks = append(ks, k)
+		}
+		sort.Strings(ks)
+		sf, _ := os.Create(filepath.Join(*out, "stats.txt"))
+		for _, k := range ks {
+			fmt.Fprintf(sf, "%s %d\n", k, c.Kinds[k])
+		}
+		sf.Close()
+	}
+	limit := 60 * time.Second
+	if v, err := strconv.Atoi(os.Getenv("VERIF_WEDGE_S")); err == nil && v > 0 {
+		limit = time.Duration(v) * time.Second
+	}
+	atomic.StoreInt64(&c.lastEmit, time.Now().UnixNano())
+	go c.watchdog(limit, finish)
 	if *replay != "" {
 		b, err := os.ReadFile(*replay)
 		if err != nil {
@@ -174,19 +235,6 @@ func main() {
 	} else {
 		g.Run(c)
 	}
-	c.ops.Flush()
-	c.impl.Flush()
-	of.Close()
-	inf.Close()
-	// distribution statistics
-	var ks []string
-	for k := range c.Kinds {
-		ks = append(ks, k)
-	}
-	sort.Strings(ks)
-	sf, _ := os.Create(filepath.Join(*out, "stats.txt"))
-	for _, k := range ks {
-		fmt.Fprintf(sf, "%s %d\n", k, c.Kinds[k])
-	}
-	sf.Close()
+	c.mu.Lock()
+	finish()
 }
